@@ -306,3 +306,46 @@ pub fn vreread_headers(checker: PackCheckerR) { unimplemented!() }
 pub fn vindexer_finalize_rebuilt(w: &mut RepairIdxWorld) -> (r: RusticResult<()>)
     ensures r is Ok ==> !final(w).queued@,
 { unimplemented!() }
+
+// ---- merge: merged trees are packed and indexed before the merged snapshot is saved ----
+pub struct MergeWorld { pub trees_added: Ghost<bool>, pub packer_flushed: Ghost<bool>, pub index_flushed: Ghost<bool> }
+pub struct VMergeInputs { pub _opaque: u64 }   // (be, index, trees, cmp, &save): the inputs of blob::tree::merge_trees
+// blob::tree::merge_trees(..., &save, summary): hands every new tree blob to the packer through `save`
+#[verifier::external_body]
+pub fn vmerge_tree_blobs(inp: &VMergeInputs, summary: &mut SummaryR, w: &mut MergeWorld) -> (r: RusticResult<TreeId>)
+    ensures r is Ok ==> final(w).trees_added@, final(w).packer_flushed@ == old(w).packer_flushed@, final(w).index_flushed@ == old(w).index_flushed@,
+{ unimplemented!() }
+pub struct VMergePacker { pub _opaque: u64 }
+impl VMergePacker {
+    // Packer::finalize: flushes the last pack and joins the writer.  PRECONDITION: nothing is added afterwards
+    #[verifier::external_body]
+    pub fn vfinalize(&self, w: &mut MergeWorld) -> (r: RusticResult<PackerStatsR>)
+        requires old(w).trees_added@,
+        ensures r is Ok ==> final(w).packer_flushed@, final(w).trees_added@ == old(w).trees_added@, final(w).index_flushed@ == old(w).index_flushed@,
+    { unimplemented!() }
+}
+pub struct VMergeIndexer { pub _opaque: u64 }
+impl VMergeIndexer {
+    // Indexer::finalize.  PRECONDITION: every pack has been handed to the indexer (the packer is finalized)
+    #[verifier::external_body]
+    pub fn vfinalize(&self, w: &mut MergeWorld) -> (r: RusticResult<()>)
+        requires old(w).packer_flushed@,
+        ensures r is Ok ==> final(w).index_flushed@, final(w).trees_added@ == old(w).trees_added@, final(w).packer_flushed@ == old(w).packer_flushed@,
+    { unimplemented!() }
+}
+pub struct VMergeRepo { pub _opaque: u64 }
+pub struct MergeSnap { pub id: SnapshotId, pub tree: TreeId, pub summary: Option<SummaryR> }
+// commands::merge::merge_trees as seen by merge_snapshots: its own unit proves exactly this postcondition
+#[verifier::external_body]
+pub fn vmerge_trees_cmd(repo: &VMergeRepo, trees: &Vec<TreeId>, summary: &mut SummaryR, w: &mut MergeWorld) -> (r: RusticResult<TreeId>)
+    ensures r is Ok ==> final(w).trees_added@ && final(w).packer_flushed@ && final(w).index_flushed@,
+{ unimplemented!() }
+impl VMergeRepo {
+    // repo.dbe().save_file(&snap) of the merged snapshot.  PRECONDITION: its trees are stored and indexed
+    #[verifier::external_body]
+    pub fn vsave_snapshot(&self, snap: &MergeSnap, w: &MergeWorld) -> (r: RusticResult<SnapshotId>)
+        requires w.trees_added@ && w.packer_flushed@ && w.index_flushed@,
+    { unimplemented!() }
+}
+#[verifier::external_body]
+pub fn vsnapshot_trees(snapshots: &Vec<SnapshotFile>) -> (r: Vec<TreeId>) ensures r@.len() == snapshots@.len(), { unimplemented!() }
